@@ -282,10 +282,63 @@ func (p *Prog) flagBitsDec(fn *ssa.Function) map[string]int64 {
 // to a value later stored into chunkHeader.flags: field -> set of masks (one per
 // encoder branch; both DATA and I-DATA branches must agree).
 func (p *Prog) flagBitsEnc(fn *ssa.Function) map[string][]int64 {
+	return p.flagBitsEncOf(fn, nil)
+}
+
+// flagBitsOfValue: the flag masks that can be OR-ed into v (a flags byte built
+// by a chain of "if field { flags |= mask }"), whether v is built in the
+// function that stores it or returned by a helper.
+func (p *Prog) flagBitsOfValue(v ssa.Value) map[string][]int64 {
+	v = unconv(v)
+	if call, ok := v.(*ssa.Call); ok {
+		if sc := call.Call.StaticCallee(); sc != nil && p.inPkg(sc) && sc.Blocks != nil {
+			out := map[string][]int64{}
+			for _, r := range allReturns(sc) {
+				for f, ms := range p.flagBitsOfValue(retResults(r)[0]) {
+					out[f] = append(out[f], ms...)
+				}
+			}
+			return out
+		}
+	}
+	in, ok := v.(ssa.Instruction)
+	if !ok || in.Parent() == nil {
+		return nil
+	}
+	closure := map[*ssa.Phi]bool{}
+	var walk func(x ssa.Value, d int)
+	walk = func(x ssa.Value, d int) {
+		if d > 40 {
+			return
+		}
+		switch y := x.(type) {
+		case *ssa.Phi:
+			if closure[y] {
+				return
+			}
+			closure[y] = true
+			for _, e := range y.Edges {
+				walk(e, d+1)
+			}
+		case *ssa.BinOp:
+			walk(y.X, d+1)
+			walk(y.Y, d+1)
+		case *ssa.Convert:
+			walk(y.X, d+1)
+		}
+	}
+	walk(v, 0)
+	return p.flagBitsEncOf(in.Parent(), closure)
+}
+
+func (p *Prog) flagBitsEncOf(fn *ssa.Function, only map[*ssa.Phi]bool) map[string][]int64 {
 	out := map[string][]int64{}
 	forEachInstr(fn, func(in ssa.Instruction) {
 		phi, ok := in.(*ssa.Phi)
 		if !ok {
+			return
+		}
+		if only != nil && !only[phi] {
 			return
 		}
 		bt, ok := phi.Type().Underlying().(*types.Basic)
